@@ -119,6 +119,9 @@ func kindTypeOf(e sx.Sexp) (px.Type, bool) {
 		return types.NewCallableType(types.NewTupleType(ts, nil), nil, nil), true
 	case "callablex": // (callablex n|(T*) n|R n|B): NewCallableType(params Tuple, return type, block type), each absent or given
 		var ps, rt, bt px.Type
+		if !a[0].IsList && a[0].Atom != "n" {
+			panic(fmt.Errorf("bad type %s", e))
+		}
 		if a[0].IsList {
 			ts := make([]px.Type, 0, len(a[0].List))
 			for _, t := range a[0].List {
@@ -372,10 +375,11 @@ func randKindType(r *rand.Rand, depth int) string {
 		if r.Intn(3) == 0 {
 			bt = []string{"callable", "(callable str)"}[r.Intn(2)]
 		}
-		for _, x := range []*string{&ps, &rt} {
-			if strings.Contains(*x, "like") {
-				*x = "str"
-			}
+		if strings.Contains(ps, "like") { // Like types do not resolve (assignability questions raise)
+			ps = "(str)"
+		}
+		if strings.Contains(rt, "like") {
+			rt = "str"
 		}
 		return "(callablex " + ps + " " + rt + " " + bt + ")"
 	case 17:
